@@ -42,14 +42,54 @@ type (
 	T7 struct{ P Prov }
 )
 
-func (t *T0) GetProv() Prov { return t.P }
-func (t *T1) GetProv() Prov { return t.P }
-func (t *T2) GetProv() Prov { return t.P }
-func (t *T3) GetProv() Prov { return t.P }
-func (t *T4) GetProv() Prov { return t.P }
-func (t *T5) GetProv() Prov { return t.P }
-func (t *T6) GetProv() Prov { return t.P }
-func (t *T7) GetProv() Prov { return t.P }
+func (t *T0) GetProv() Prov {
+	if t == nil {
+		return Zero
+	}
+	return t.P
+}
+func (t *T1) GetProv() Prov {
+	if t == nil {
+		return Zero
+	}
+	return t.P
+}
+func (t *T2) GetProv() Prov {
+	if t == nil {
+		return Zero
+	}
+	return t.P
+}
+func (t *T3) GetProv() Prov {
+	if t == nil {
+		return Zero
+	}
+	return t.P
+}
+func (t *T4) GetProv() Prov {
+	if t == nil {
+		return Zero
+	}
+	return t.P
+}
+func (t *T5) GetProv() Prov {
+	if t == nil {
+		return Zero
+	}
+	return t.P
+}
+func (t *T6) GetProv() Prov {
+	if t == nil {
+		return Zero
+	}
+	return t.P
+}
+func (t *T7) GetProv() Prov {
+	if t == nil {
+		return Zero
+	}
+	return t.P
+}
 
 // Interfaces for As. Every T implements all of them.
 type (
